@@ -248,6 +248,22 @@ def drive(lines):
     return outs
 
 
+# --------------------------------------------------------------------------- sharding over cores
+def pmap(fn, items, workers=None, chunk=None):
+    """Run fn(item) over items in forked worker processes (results in order).  fn and items must be picklable;
+    each worker is a fresh fork, so pyscript's class-level state does not leak between shards beyond one worker."""
+    import multiprocessing as mp
+    items = list(items)
+    if not items:
+        return []
+    workers = workers or min(12, os.cpu_count() or 4)
+    if workers <= 1 or len(items) < 4:
+        return [fn(i) for i in items]
+    ctx = mp.get_context("fork")
+    with ctx.Pool(workers, maxtasksperchild=200) as pool:
+        return pool.map(fn, items, chunksize=chunk or max(1, len(items) // (workers * 4)))
+
+
 # --------------------------------------------------------------------------- known findings
 def load_findings(prop):
     f = ROOT / "known_findings.json"
@@ -255,6 +271,14 @@ def load_findings(prop):
         return []
     data = json.loads(f.read_text())
     return [e for e in data.get("findings", []) if e.get("property") == prop and e.get("status") == "open"]
+
+
+def fixed_findings(prop):
+    f = ROOT / "known_findings.json"
+    if not f.exists():
+        return []
+    return [e for e in json.loads(f.read_text()).get("findings", [])
+            if e.get("property") == prop and e.get("status") == "fixed"]
 
 
 # --------------------------------------------------------------------------- the generic check
